@@ -4,7 +4,7 @@
    record the OCaml driver passes in. *)
 From Coq Require Extraction.
 From Coq Require Import ExtrOcamlBasic.
-From LV Require Import Base.NumOps Base.Cart Deriv.DerivModel Api.ApiModel History.HistoryModel CopySem.CopyModel EcpLib.EcpLibModel Base.QInst Angular.AngularModel Quad.QuadModel Bessel.BesselModel Bessel.BesselSpec Rot.RotModel ShellPair.ShellPairModel Radial.EstimateModel.
+From LV Require Import Base.NumOps Base.Cart Deriv.DerivModel Api.ApiModel History.HistoryModel CopySem.CopyModel EcpLib.EcpLibModel Base.QInst Angular.AngularModel Quad.QuadModel Bessel.BesselModel Bessel.BesselSpec Rot.RotModel ShellPair.ShellPairModel ShellPair.PairEstimate Radial.EstimateModel.
 Extraction Language OCaml.
 Extraction "vext.ml" mkNumOps cart nindex ncart lsd lssd mixed off_centre cspd csp2
   atom_ids locate updates1 updates2 integrals_entry first_entry second_entry hdiag hpair
@@ -15,4 +15,4 @@ Extraction "vext.ml" mkNumOps cart nindex ncart lsd lssd mixed off_centre cspd c
   maxN_one maxN_two init_grid integrate_one integrate_two rminmax st_indices
   node_K node_dK calc_vec calc_one PA PB expand
   type1 t2_both rolled_up rolled_up_special combine_pair pair_t2
-  prim_estimate upper_bound.
+  prim_estimate upper_bound pair_estimate.
